@@ -150,4 +150,13 @@ def main():
 
 
 if __name__ == "__main__":
-    sys.exit(main())
+    try:
+        rc = main()
+    except SystemExit:
+        raise
+    except BaseException:  # a crash of the machinery is not a verdict: never exit 1 for it
+        import traceback
+        traceback.print_exc()
+        print("HARNESS ERROR: the check itself failed (see traceback above)")
+        rc = 3
+    sys.exit(rc)
